@@ -18,8 +18,8 @@ ASSUMPTIONS = [
     'lifecycle hooks do not raise; no kill requests (C04)',
 ]
 BUDGET = {
-    'quick': {'enum': ['k1', 'k2', 'self2', 'listener', 'wc1', 'wc2'], 'hyp': 4000, 'shards': 8},
-    'thorough': {'enum': ['k1', 'k2', 'k3', 'k4w', 'self3', 'listener', 'wc1', 'wc2', 'wc3'], 'hyp': 120000, 'shards': 16},
+    'quick': {'enum': ['k1', 'k2', 'self2', 'listener', 'wc1', 'wc2', 'afterkill'], 'hyp': 4000, 'shards': 8},
+    'thorough': {'enum': ['k1', 'k2', 'k3', 'k4w', 'self3', 'listener', 'wc1', 'wc2', 'wc3', 'afterkill'], 'hyp': 120000, 'shards': 16},
 }
 ALPHABET = [['pause', 'pm'], ['pause', None], ['play'], ['resume', 1]]
 ALPHABET_SMALL = [['pause', 'pm'], ['play'], ['resume', 1]]
@@ -41,6 +41,12 @@ def enumerate_cases(tier, scope):
         for name in gen.WC_CATALOGUE:
             for sched in gen.schedules([['pause', 'pm'], ['play']] + gen.WC_EVENTS, k, 3 if k < 3 else 2):
                 yield dict(gen.base(name), schedule=sched, tag=f'{scope}:{name}')
+    elif scope == 'afterkill':
+        # pause()/play() never raise, also around a termination (no twin comparison for these)
+        for name in ('async2', 'wait1', 'chain', 'gated'):
+            for pre in ([], [['tick', 1]], [['tick', 2]]):
+                for seq in ([['pause', 'p'], ['kill', 'k'], ['play']], [['pause', 'p'], ['tick', 2], ['kill', 'k'], ['play'], ['pause', 'q'], ['play']], [['kill', 'k'], ['pause', 'p'], ['play']], [['pause', 'p'], ['tick', 3], ['fail', 'f'], ['play']]):
+                    yield {'program': cat[name], 'schedule': pre + seq, 'no_twin': True}
     elif scope == 'k4w':
         for name in ('wait1', 'waitwait'):
             for sched in gen.schedules(ALPHABET_SMALL, 4, 2):
@@ -100,8 +106,15 @@ def execute(case):
         viol.append({'clause': clause, 'detail': detail})
 
     a = common_pp.run_with_requests(case)
-    b = common_pp.run_twin(case, a['delivered'])
     calls = a['calls']
+    if case.get('no_twin'):
+        for r in calls:
+            if r['what'] in ('pause', 'play') and r['raised']:
+                v(f"{r['what']}-raised", f"{r['who']} {r['what']} in state {r['state_before']} (paused={r['paused_before']}): {r['raised']}")
+            if r['what'] == 'play' and not r['raised'] and (r['ret'] != 'True' or r['paused_after']):
+                v('play-left-paused', f"play() returned {r['ret']}, paused={r['paused_after']} in state {r['state_before']}")
+        return {'violations': viol, 'nontrivial': True, 'classes': ['around-termination', 'final:' + a['views']['state']], 'history': a['history']}
+    b = common_pp.run_twin(case, a['delivered'])
     trace = a['trace']
 
     # pause()/play() never raise; play() returns True and leaves the process un-paused
